@@ -195,6 +195,10 @@ static void zp_case(void) {
 
 static void m_case(void) {
   /* product of small polynomials in x0, x1 (x2) with multiplicities, times a content in the lower variables */
+  /* sometimes P is an external polynomial built under the reversed variable order; the order is restored before the
+     factorization, which is then the first call that sees it */
+  int stale = chance(15);
+  if (stale) hp_stale_begin();
   lp_polynomial_t* P = lp_polynomial_new(hp_ctx[0]);
   { lp_integer_t one; lp_integer_construct_from_int(lp_Z, &one, chance(70) ? 1 : rnd_in(2, 6)); lp_polynomial_t* c = lp_polynomial_alloc();
     lp_polynomial_construct_simple(c, hp_ctx[0], &one, hp_x[0], 0); lp_polynomial_assign(P, c); lp_polynomial_delete(c); lp_integer_destruct(&one); }
@@ -207,16 +211,28 @@ static void m_case(void) {
     lp_polynomial_delete(g);
   }
   if (lp_polynomial_is_constant(P)) { lp_polynomial_delete(P); P = hp_random_poly(0, 2, 2, 3); }
-  if (lp_polynomial_is_zero(P) || lp_polynomial_is_constant(P)) { lp_polynomial_delete(P); return; }
-  if (lp_polynomial_degree(P) > 8) { lp_polynomial_delete(P); return; }
+  if (lp_polynomial_is_zero(P) || lp_polynomial_is_constant(P)) { hp_stale_end(); lp_polynomial_delete(P); return; }
+  char* tokP = 0;
+  if (stale) {
+    lp_polynomial_t* T = lp_polynomial_new_copy(P);
+    tokP = hp_tok(P); lp_polynomial_set_external(P);
+    hp_stale_end();
+    lp_polynomial_ensure_order(T);
+    int big = lp_polynomial_is_constant(T) || lp_polynomial_degree(T) > 8;
+    lp_polynomial_delete(T);
+    if (big) { lp_polynomial_delete(P); free(tokP); return; }
+  } else if (lp_polynomial_degree(P) > 8) { lp_polynomial_delete(P); return; }
   int sqf = chance(65);
   lp_polynomial_t** factors = 0; size_t* mult = 0; size_t n = 0;
-  sb_begin("fac", sqf ? "msqf" : "mcf"); sb_sp(); sb_poly(P); sb_arrow();
+  sb_begin("fac", sqf ? "msqf" : "mcf"); sb_sp(); if (tokP) sb_str(tokP); else sb_poly(P); sb_arrow();
   if (sqf) lp_polynomial_factor_square_free(P, &factors, &mult, &n); else lp_polynomial_factor_content_free(P, &factors, &mult, &n);
   sb_sp(); sb_ulong(n);
-  for (size_t i = 0; i < n; ++i) { sb_sp(); sb_poly(factors[i]); sb_sp(); sb_ulong(mult[i]); lp_polynomial_delete(factors[i]); }
+  int in_order = 1;
+  for (size_t i = 0; i < n; ++i) { in_order = in_order && lp_polynomial_check_order(factors[i]); sb_sp(); sb_poly(factors[i]); sb_sp(); sb_ulong(mult[i]); lp_polynomial_delete(factors[i]); }
   sb_emit();
-  free(factors); free(mult);
+  /* printing cannot see a factor that is laid out in another variable order: ask */
+  sb_begin("fac", "layout"); sb_sp(); sb_long(stale); sb_arrow(); sb_sp(); sb_long(in_order); sb_emit();
+  free(factors); free(mult); free(tokP);
   lp_polynomial_delete(P);
 }
 
